@@ -26,12 +26,30 @@ package bn256
 //@   ensures err == nil ==> ghost(g1v, e) == G1ENC(A0, offof(m))
 //@   ghostset g1v[e] := G1ENC(A0, offof(m))
 //@   ensures err == nil ==> len(m) >= 64 && canon(A0, m, 0) && canon(A0, m, 1) && sameslice(result0, m[64:])
+//@   bind after call Equal#1: XE := result
+//@   bind after call Equal#2: YE := result
+//@   bind after call IsOnCurve#1: OC := ite(result, 1, 0)
+//@   bind after call SetInfinity#1: INF := 1
+//@   assert before call SetInfinity#1: XE == 1 && YE == 1
+//@   ensures err == nil ==> OC == 1 || INF == 1
 //@   heapnonnil
 //@   modifies e.p, *e.p, ghost(g1v, e)
 
+// (the on-curve gate: success only after IsOnCurve accepted the decoded point, or - the infinity
+// encoding - after BOTH coordinates compared equal to zero; the curve test itself is assumed)
+//@ func (*curvePoint).IsOnCurve trusted
+//@   modifies nothing
+//@ func (*curvePoint).SetInfinity trusted
+//@   modifies *c
 //@ func (*G1).UnmarshalCompressed property C09,C13
 //@   let A0 := arr(data)
 //@   ensures err == nil ==> len(data) >= 33 && (old(data[0]) == 2 || old(data[0]) == 3) && BEV(A0, offof(data) + 1, 32) < GFPV() && sameslice(result0, data[33:])
+//@   bind after call Equal#1: XE := result
+//@   bind after call Equal#2: YE := result
+//@   bind after call IsOnCurve#1: OC := ite(result, 1, 0)
+//@   bind after call SetInfinity#1: INF := 1
+//@   assert before call SetInfinity#1: XE == 1 && YE == 1
+//@   ensures err == nil ==> OC == 1 || INF == 1
 //@   heapnonnil
 //@   modifies everything
 
